@@ -33,7 +33,9 @@ ASSUMPTIONS = [
 TRACE_FILES = ("basilisp/lang/atom.py", "basilisp/lang/reference.py")  # core.lpy retry loops only touch thread-local data between calls into atom.py: a switch there is equivalent to a switch at the next atom.py line
 TRACE_FUNCS = {
     # atom.py / reference.py
-    "_compare_and_set", "compare_and_set", "deref", "reset", "swap", "add_watch", "remove_watch", "_notify_watches", "_validate",
+    "_compare_and_set", "_set_if_identical", "compare_and_set", "deref", "reset", "reset_vals", "swap", "swap_vals", "add_watch", "remove_watch",
+    "_notify_watches", "_validate",  # every function of atom.py: a line inside a locked region is a scheduling point too, so
+    # that a writer which does NOT take the lock (a lock-free fast path) can land between another writer's check and store
     "set_validator", "get_validator",
     # core.lpy retry loops
     "swap__BANG__", "reset__BANG__", "swap_vals__BANG__", "reset_vals__BANG__",
@@ -479,6 +481,12 @@ def scenarios(tier):
     for i, a in enumerate(pair_ops):
         for b in pair_ops[i:]:
             scs.append((dict(base, threads=[[a], [b]]), 2 if quick else 3))
+    # the same pairs on an atom WITHOUT a watch (code may take another path when nobody is watching)
+    for i, a in enumerate(pair_ops):
+        for b in pair_ops[i:]:
+            if "deref" in (a, b) and a != b:
+                continue
+            scs.append((dict(base, watch=False, threads=[[a], [b]]), 2 if quick else 3))
     # type-sensitive: atom holding 1, reset to 1.0 / true races with a type-observing swap
     for a, b in [("swap!typeobs", "reset!1.0"), ("swap!typeobs", "reset!1"), ("cas1->8", "reset!1.0"), ("swap-vals!inc", "reset!1.0"), ("Atom.swap-inc", "reset!1.0"), ("swap!typeobs", "swap!typeobs")]:
         scs.append((dict(init=1, validator="none", watch=True, threads=[[a], [b]]), 2 if quick else 3))
